@@ -1,25 +1,38 @@
 """The function translator: regenerates lean/CollectionsC/Generated/Funcs.lean from the CURRENT text
-of the two smallest containers, so that the theorems of Properties/C19Gen.lean and C12Gen.lean ("the
-translated C function agrees with the hand-written model function on every state satisfying the
-invariant") are re-checked against what the code says now.  Editing a statement of one of these
-functions changes the generated definition and the theorem about it stops building.
+of the two smallest containers (constructors and destructors included), so that the theorems of
+Properties/C19Gen.lean and C12Gen.lean ("under the invariant the translated C function is free of
+undefined behaviour and agrees with the hand-written model function") are re-checked against what the
+code says now.  Editing a statement changes the generated definition and the theorem stops building.
 
-Route: comment-stripped C text -> tokens -> recursive-descent parser (declarations with
-initialisers, assignments, `if`/`else`, `return`, `++`/`--`, expressions with + - * / % comparisons
-&& || !, casts, `p->f`, `a[i]`, `*out`, calls) -> a small type checker (size_t-like, int, bool, byte
-pointer, status, the container struct) -> Lean.
+Route: comment-stripped C text -> tokens -> recursive-descent parser -> a small type checker -> Lean.
 
- * The state is a generated record with the data fields of the struct (function pointers are
-   skipped).  An array field (`uint64_t *buf`) is a `List Nat` read with `Buf.get` / written with
-   `Buf.put`; byte pointers are `Ptr = Option Nat` (`none` = NULL, `some k` = k bytes above the start of
-   the region) and the region itself is the ghost field `bytes` (`memset` writes it).
- * A function takes the record where the C function takes the struct pointer and returns
-   (return value, out-parameters as `Option`, the record if the function can modify it), components
-   that do not exist are left out.
- * Statements become a chain of `let`s; an `if` whose branches do not return is a joined `let`,
-   an `if` with a `return` continues both ways.
- * size_t arithmetic: `+` `wadd`, `-` `wsub`, `*` `wmul` (mod 2^64), `/` and `%` Lean's (the model
-   checks division by zero separately), pointer + n `padd`, pointer - pointer `pdiff`.
+ * Every struct of the file that the functions touch becomes a record with ALL its fields: `size_t` /
+   `uint64_t` fields are `Nat`, an array field (`uint64_t *buf`) is a `List Nat`, byte pointers are
+   `Ptr = Option Nat` (`none` = NULL, `some a` = address `a`), function pointers (the allocator triple) are
+   `Option Triple` (which allocator the pointer denotes; `none` = NULL).  For the static pool the memory the
+   byte pointers point into is the ghost field `bytes` (indexed by address; `memset` writes it).
+ * A function takes a record where the C function takes a struct pointer and returns
+   (return value, out-parameters as `Option`, every struct parameter it may modify, the allocation ledger
+   `Mem` if it calls through an allocator pointer, `fault`), components that do not exist are left out.
+   `p->mem_calloc(..)`/`p->mem_alloc(..)` is `Mem.allocT`, `p->mem_free(..)` is `Mem.freeT` (Base/Mem.lean).
+ * UNDEFINED BEHAVIOUR IS CHECKED, not totalised: `fault` becomes true when an array is indexed outside its
+   length, on `/ 0` and `% 0`, on `int` overflow, on pointer arithmetic with NULL or past the region, on
+   `memset` of NULL / outside the region, on a call through a NULL function pointer and on a dereference
+   of a local object pointer that may be NULL.  `&&`, `||` and `?:` check their right operands only when C
+   evaluates them.  A function without any such operation has no `fault` component.
+ * INTEGER WIDTHS: only the 64-bit unsigned types `size_t`, `uint64_t`, `uintptr_t` (-> `Nat`, arithmetic
+   `wadd`/`wsub`/`wmul` mod 2^64) and `int` (-> `Int`, overflow is a fault) are translated; `uint8_t` and
+   `void` only as the target of a byte pointer.  Any other integer type (uint32_t, unsigned, long, a
+   narrowing cast, ...) is refused.  Mixed `int`/`size_t` operands follow C: the `int` is converted
+   (`castSizeT`, i.e. mod 2^64).  `<f>_range` states the declared ranges of the scalar parameters.
+ * Statements become a chain of `let`s; an `if` whose branches do not return is a joined `let`, an `if`
+   with a `return` continues both ways; file-local helper functions are translated as `@[simp]` definitions.
+
+STILL IGNORED (said here so that nobody assumes otherwise): the preprocessor beyond rejecting `#define`
+/`#undef` inside a translated file (macros from headers are only known as far as Constants.lean lists
+them); struct layout and `sizeof` values (`sizeof(T)` is only checked to name the allocated type); the byte
+size product of `calloc(n, size)` (the allocator's business); aliasing between different pointers; reads of
+uninitialised locals (they read as 0); loops (refused).
 
 Unsupported syntax gives a problem string and `def <f> : Unit := ()`; the translator never raises.
 The output is deterministic."""
@@ -30,16 +43,19 @@ from gen_guards import GuardError as TErr
 
 TABLE = [
     dict(file="src/cc_ring_buffer.c", struct="ring_buffer", arrays=["buf"], memory=None,
-         funcs=["cc_rbuf_is_empty", "cc_rbuf_size", "cc_rbuf_enqueue", "cc_rbuf_dequeue", "cc_rbuf_peek"]),
+         funcs=["cc_rbuf_conf_init", "cc_rbuf_conf_new", "cc_rbuf_new", "cc_rbuf_destroy",
+                "cc_rbuf_is_empty", "cc_rbuf_size", "cc_rbuf_enqueue", "cc_rbuf_dequeue", "cc_rbuf_peek"]),
     dict(file="src/memory/cc_static_pool.c", struct="cc_static_pool_s", arrays=[], memory="bytes",
-         funcs=["cc_static_pool_reset", "cc_static_pool_malloc", "cc_static_pool_calloc", "cc_static_pool_free",
-                "cc_static_pool_used_bytes", "cc_static_pool_free_bytes"]),
+         funcs=["cc_static_pool_new", "cc_static_pool_reset", "cc_static_pool_malloc", "cc_static_pool_calloc",
+                "cc_static_pool_free", "cc_static_pool_used_bytes", "cc_static_pool_free_bytes"]),
 ]
 
-NAT_BASES = {"size_t", "uint64_t", "uint32_t", "uint16_t", "uint8_t", "unsigned", "uintptr_t"}
+NAT64 = {"size_t", "uint64_t", "uintptr_t"}
 BYTE_BASES = {"uint8_t", "void", "char"}
-TYPEWORDS = NAT_BASES | {"int", "char", "bool", "void", "const", "enum", "struct", "long", "short", "signed"}
+TYPEWORDS = NAT64 | {"uint8_t", "uint16_t", "uint32_t", "unsigned", "int", "char", "bool", "void", "const", "enum",
+                     "struct", "long", "short", "signed", "int8_t", "int16_t", "int32_t", "int64_t", "float", "double"}
 SIZE_MOD = 2 ** 64
+LIBC = {"malloc": "alloc", "calloc": "calloc", "free": "free"}
 
 # ---- lexer ----------------------------------------------------------------------------
 TOK = re.compile(r"\s*(0[xX][0-9a-fA-F]+[uUlL]*|\d+[uUlL]*|[A-Za-z_]\w*|->|\+\+|--|&&|\|\||==|!=|<=|>=|\+=|-=|\*=|/=|%=|<<|>>"
@@ -82,7 +98,6 @@ class Parser:
         self.i += 1
         return t
 
-    # types
     def type_tokens(self):
         """consumes base type words and stars; returns (base words, number of stars)"""
         words = []
@@ -96,9 +111,8 @@ class Parser:
         while self.peek() in ("*", "const"):
             if self.eat() == "*":
                 stars += 1
-        return words, stars
+        return tuple(words), stars
 
-    # statements
     def block_items(self):
         items = []
         while self.peek() is not None and self.peek() != "}":
@@ -134,7 +148,7 @@ class Parser:
         if t in ("for", "while", "do", "switch", "goto", "break", "continue", "case", "default"):
             raise TErr(f"`{t}` statements are not translated")
         if t in self.types:
-            words, stars = self.type_tokens()
+            ty = self.type_tokens()
             name = self.eat()
             if not is_ident(name):
                 raise TErr(f"declarator expected, found `{name}`")
@@ -147,12 +161,11 @@ class Parser:
             if self.peek() in ("[", "("):
                 raise TErr("array / function declarator")
             self.eat(";")
-            return ("decl", (tuple(words), stars), name, init)
+            return ("decl", ty, name, init)
         e = self.expr()
         self.eat(";")
         return ("expr", e)
 
-    # expressions
     def expr(self):
         e = self.assign()
         if self.peek() == ",":
@@ -219,12 +232,18 @@ class Parser:
             self.eat()
             return ("pre", t, self.unary())
         if t == "sizeof":
-            raise TErr("sizeof")
+            self.eat()
+            self.eat("(")
+            if self.peek() not in self.types:
+                raise TErr("sizeof of an expression")
+            ty = self.type_tokens()
+            self.eat(")")
+            return ("sizeof", ty)
         if t == "(" and self.peek(1) in self.types:
             self.eat()
-            words, stars = self.type_tokens()
+            ty = self.type_tokens()
             self.eat(")")
-            return ("cast", (tuple(words), stars), self.unary())
+            return ("cast", ty, self.unary())
         return self.postfix()
 
     def postfix(self):
@@ -243,8 +262,6 @@ class Parser:
                 self.eat("]")
                 e = ("index", e, i)
             elif t == "(":
-                if e[0] != "id":
-                    raise TErr("call through an expression")
                 self.eat()
                 args = []
                 if self.peek() != ")":
@@ -253,7 +270,7 @@ class Parser:
                         self.eat()
                         args.append(self.assign())
                 self.eat(")")
-                e = ("call", e[1], args)
+                e = ("call", e[1], args) if e[0] == "id" else ("callp", e, args)
             elif t in ("++", "--"):
                 self.eat()
                 e = ("post", t, e)
@@ -280,66 +297,107 @@ class Parser:
 
 
 # ---- types ----------------------------------------------------------------------------------
-# "nat" "int" "bool" "ptr" "stat" "void" "self" ("out", t) "arr" "lit" (an integer literal, adapts)
+# "nat" "int" "bool" "ptr" "stat" "void" "lit" (an integer literal, adapts) "arr" (array of uint64_t)
+# ("sp", tag) pointer to a translated struct   ("sv", tag) a struct value (local)
+# ("out", t) out-parameter                     ("fn", role) allocator function pointer
+# pseudo: "mem" (the ledger variable), "flag"
 
-def mk_type(words, stars, typedefs, where):
-    words = tuple(w for w in words if w not in ("const",))
+def mk_type(ty, tdefs, where, ctx):
+    """ctx: "param" | "local" | "field" | "ret" | "cast"; tdefs: {typedef name: struct tag}"""
+    words, stars = ty
+    words = tuple(w for w in words if w != "const")
     base = " ".join(words)
-    if words and words[0] in typedefs and len(words) == 1:
+    shown = f"`{base}{'*' * stars}`"
+    tag = None
+    if len(words) == 1 and words[0] in tdefs:
+        tag = tdefs[words[0]]
+    elif len(words) == 1 and words[0].startswith("struct ") and words[0][7:] in tdefs.values():
+        tag = words[0][7:]
+    if tag is not None:
         if stars == 1:
-            return "self"
-        raise TErr(f"{base}{'*' * stars} ({where})")
+            return ("sp", tag)
+        if stars == 0 and ctx == "local":
+            return ("sv", tag)
+        if stars == 2 and ctx == "param":
+            return ("out", ("sp", tag))
+        raise TErr(f"type {shown} ({where})")
     if base == "enum cc_stat" and stars == 0:
         return "stat"
     if base == "bool" and stars == 0:
         return "bool"
     if base == "int" and stars == 0:
         return "int"
-    if base == "void" and stars == 0:
+    if base == "void" and stars == 0 and ctx == "ret":
         return "void"
-    if all(w in NAT_BASES or w in ("long", "short") for w in words) and words:
+    if base in NAT64:
         if stars == 0:
             return "nat"
-        if stars == 1 and base in BYTE_BASES:
-            return "ptr"
-        if stars == 1:
+        if stars == 1 and base == "uint64_t":
+            return ("out", "nat") if ctx == "param" else "arr"
+        if stars == 1 and ctx == "param":
             return ("out", "nat")
     if base in BYTE_BASES and stars == 1:
         return "ptr"
-    if base in BYTE_BASES and stars == 2:
+    if base in BYTE_BASES and stars == 2 and ctx == "param":
         return ("out", "ptr")
-    raise TErr(f"type `{base}{'*' * stars}` is not translated ({where})")
-
-
-LEAN_TY = {"nat": "Nat", "int": "Int", "bool": "Bool", "ptr": "Ptr", "stat": "Nat"}
+    if stars == 0 and words and all(w in TYPEWORDS for w in words):
+        raise TErr(f"integer type {shown} ({where}): only size_t / uint64_t / uintptr_t and int are translated, "
+                   f"other widths are refused")
+    raise TErr(f"type {shown} is not translated ({where})")
 
 
 def lean_ident(n):
     return gg.lean_ident(n)
 
 
+def lean_ty(t):
+    if isinstance(t, tuple):
+        if t[0] in ("sp", "sv"):
+            return lean_ident(t[1])
+        if t[0] == "out":
+            return f"Option {atomty(lean_ty(t[1]))}"
+        if t[0] == "fn":
+            return "Option Triple"
+    return {"nat": "Nat", "int": "Int", "bool": "Bool", "ptr": "Ptr", "stat": "Nat", "arr": "List Nat",
+            "mem": "Mem", "flag": "Bool"}[t]
+
+
+def atomty(s):
+    return s if " " not in s else f"({s})"
+
+
+def zero_of(t):
+    if isinstance(t, tuple):
+        if t[0] in ("sp", "sv"):
+            return f"{lean_ident(t[1])}.zero"
+        return "none"
+    return {"nat": "0", "int": "0", "bool": "false", "ptr": "none", "stat": "0", "arr": "[]"}[t]
+
+
 class Sig:
-    def __init__(self, name, ret, params, body, cfg):
-        self.name, self.ret, self.params, self.body, self.cfg = name, ret, params, body, cfg
+    def __init__(self, name, ret, params, body):
+        self.name, self.ret, self.params, self.body = name, ret, params, body
         self.lean = name        # file-local helpers get the struct tag as a prefix (one_file)
         self.helper = False
-        selfs = [n for n, t in params if t == "self"]
-        if len(selfs) > 1:
-            raise TErr("more than one container parameter")
-        self.state = selfs[0] if selfs else None
         self.outs = [(n, t[1]) for n, t in params if isinstance(t, tuple) and t[0] == "out"]
-        self.mutates = False
+        self.mut = []           # struct-pointer parameters the function may modify
+        self.mem = False        # calls through an allocator pointer
+        self.faults = False     # has a `fault` component
+        self.extras = []        # [(lean name, lean type)]: arbitrary initial contents of uninitialised objects
         self.calls = set()
 
-    def components(self, record):
-        """[(kind, lean type)] of the returned tuple"""
+    def components(self):
         c = []
         if self.ret != "void":
-            c.append(("ret", LEAN_TY[self.ret]))
+            c.append(("ret", lean_ty(self.ret)))
         for n, t in self.outs:
-            c.append(("out:" + n, f"Option {LEAN_TY[t]}"))
-        if self.mutates:
-            c.append(("state", record))
+            c.append(("out:" + n, lean_ty(("out", t))))
+        for n in self.mut:
+            c.append(("state:" + n, lean_ty(dict(self.params)[n])))
+        if self.mem:
+            c.append(("mem", "Mem"))
+        if self.faults:
+            c.append(("fault", "Bool"))
         return c
 
 
@@ -356,7 +414,7 @@ def walk_exprs(node, f):
     if not isinstance(node, tuple) or not node:
         return
     k = node[0]
-    if k in ("block",):
+    if k == "block":
         for s in node[1]:
             walk_exprs(s, f)
     elif k == "if":
@@ -383,6 +441,10 @@ def walk_exprs(node, f):
             walk_exprs(node[2], f)
             walk_exprs(node[3], f)
         elif k == "call":
+            for a in node[2]:
+                walk_exprs(a, f)
+        elif k == "callp":
+            walk_exprs(node[1], f)
             for a in node[2]:
                 walk_exprs(a, f)
         elif k == "index":
@@ -414,101 +476,148 @@ def root_var(lhs):
     """the variable an lvalue belongs to"""
     if lhs[0] == "id":
         return lhs[1]
-    if lhs[0] == "arrow":
+    if lhs[0] in ("arrow", "index"):
         return root_var(lhs[1])
-    if lhs[0] == "index":
-        return root_var(lhs[1])
-    if lhs[0] == "un" and lhs[1] == "*":
+    if lhs[0] == "un" and lhs[1] in ("*", "&"):
         return root_var(lhs[2])
     raise TErr("assignment to something that is not a variable, a field, an array slot or `*out`")
 
 
+def const_int(e):
+    if e[0] == "num":
+        return e[1]
+    if e[0] == "un" and e[1] == "-":
+        v = const_int(e[2])
+        return None if v is None else -v
+    if e[0] == "un" and e[1] == "+":
+        return const_int(e[2])
+    return None
+
+
+def conj(a, b):
+    if a is None:
+        return b
+    if b is None or a == b:
+        return a
+    return f"({a} && {b})"
+
+
+def guard(c, ok):
+    """ok is only required when c holds"""
+    return None if ok is None else f"(!({c}) || {ok})"
+
+
+FAULT, MEM = "fault_", "m"
+
+
 # ---- emitter ---------------------------------------------------------------------------------------
 class Emit:
-    def __init__(self, sig, sigs, cfg, record, fields, status):
-        self.sig, self.sigs, self.cfg, self.record, self.fields, self.status = sig, sigs, cfg, record, fields, status
+    def __init__(self, sig, sigs, cfg, structs, consts):
+        self.sig, self.sigs, self.cfg, self.structs, self.consts = sig, sigs, cfg, structs, consts
         self.tmp = 0
+        self.nn = {}            # lvalue key -> lean Bool text: "this pointer is not NULL"
+        self.fault_used = False
+        self.extras = []
 
-    def fresh(self, env):
+    def fresh(self, env, stem="r"):
         while True:
             self.tmp += 1
-            n = f"r_{self.tmp}"
+            n = f"{stem}_{self.tmp}"
             if n not in env:
                 return n
 
+    def fields_of(self, t):
+        return self.structs[t[1]]["fields"]
+
+    def memvar(self, env):
+        """(lean text of the byte region, or None)"""
+        mem = self.cfg["memory"]
+        if not mem:
+            return None
+        for v, t in env.items():
+            if isinstance(t, tuple) and t[0] in ("sp", "sv") and t[1] == self.cfg["struct"]:
+                return f"{lean_ident(v)}.{mem}"
+        return None
+
     # -- expressions (pure) --
     def E(self, e, env, want=None):
-        """-> (lean text, type); `want` lets an integer literal adapt"""
+        """-> (lean text, type, ok) ; ok = None or a lean Bool that is false when evaluating e is undefined"""
         k = e[0]
         if k == "num":
             if want == "int":
-                return str(e[1]), "int"
+                return str(e[1]), "int", None
             if want == "ptr":
                 if e[1] == 0:
-                    return "none", "ptr"
+                    return "none", "ptr", None
                 raise TErr("integer used as a pointer")
-            return str(e[1]), ("nat" if want in ("nat", "bool", "stat") else "lit")
+            return str(e[1]), ("nat" if want in ("nat", "bool", "stat") else "lit"), None
         if k == "null":
-            return "none", "ptr"
+            return "none", (want if isinstance(want, tuple) and want[0] == "fn" else "ptr"), None
         if k == "boollit":
-            return e[1], "bool"
+            return e[1], "bool", None
         if k == "id":
             if e[1] in env:
                 t = env[e[1]]
-                if isinstance(t, tuple):
+                if isinstance(t, tuple) and t[0] == "out":
                     raise TErr(f"out-parameter `{e[1]}` used as a value")
-                return lean_ident(e[1]), t
-            if e[1] in self.status:
-                return str(self.status[e[1]]), "stat"
+                if t in ("mem", "flag"):
+                    raise TErr(f"`{e[1]}` clashes with a name the translation uses")
+                return lean_ident(e[1]), t, None
+            if e[1] in LIBC and isinstance(want, tuple) and want[0] == "fn":
+                if LIBC[e[1]] != want[1]:
+                    raise TErr(f"`{e[1]}` stored in a function pointer of another kind")
+                return "(some Triple.libc)", want, None
+            if e[1] in self.consts:
+                return str(self.consts[e[1]]), ("stat" if e[1].startswith("CC_") and want == "stat" else "nat"), None
             raise TErr(f"unknown identifier `{e[1]}`")
         if k == "arrow":
-            b, bt = self.E(e[1], env)
-            if bt != "self":
-                raise TErr(f"`->{e[2]}` on something that is not the container")
-            if e[2] not in self.fields:
-                raise TErr(f"`{e[2]}` is not a data field of struct {self.cfg['struct']}")
-            return f"{b}.{lean_ident(e[2])}", self.fields[e[2]]
+            b, bt, ok = self.E(e[1], env)
+            if not (isinstance(bt, tuple) and bt[0] in ("sp", "sv")):
+                raise TErr(f"`->{e[2]}` on something that is not a translated struct")
+            fs = self.fields_of(bt)
+            if e[2] not in fs:
+                raise TErr(f"`{e[2]}` is not a field of struct {bt[1]}")
+            if e[1][0] == "id" and e[1][1] + "_nn" in env:
+                ok = conj(ok, lean_ident(e[1][1] + "_nn"))
+            return f"{b}.{lean_ident(e[2])}", fs[e[2]], ok
         if k == "index":
-            a, at = self.E(e[1], env)
+            a, at, ok = self.E(e[1], env)
             if at != "arr":
-                raise TErr("indexing something that is not an array field")
-            i, it = self.E(e[2], env, "nat")
-            if it == "int":
-                i = f"(Int.toNat {i})"
-            elif it not in ("nat", "lit"):
-                raise TErr("array index is not an integer")
-            return f"(Buf.get {a} {i})", "nat"
+                raise TErr("indexing something that is not an array")
+            i, ok2 = self.index(e[2], env, a)
+            return f"(Buf.get {a} {i})", "nat", conj(ok, ok2)
         if k == "cast":
-            t = mk_type(e[1][0], e[1][1], self.cfg["typedefs"], "cast")
+            t = mk_type(e[1], self.cfg["tdefs"], "cast", "cast")
             if t == "nat":
                 v = const_int(e[2])
                 if v is not None:
-                    return str(v % SIZE_MOD), "nat"
-                x, xt = self.E(e[2], env, "nat")
+                    return str(v % SIZE_MOD), "nat", None
+                x, xt, ok = self.E(e[2], env, "nat")
                 if xt in ("nat", "lit"):
-                    return x, "nat"
+                    return x, "nat", ok
                 if xt == "int":
-                    return f"(castSizeT {x})", "nat"
+                    return f"(castSizeT {x})", "nat", ok
             if t == "ptr":
-                x, xt = self.E(e[2], env, "ptr")
+                x, xt, ok = self.E(e[2], env, "ptr")
                 if xt == "ptr":
-                    return x, "ptr"
+                    return x, "ptr", ok
             if t == "int":
-                x, xt = self.E(e[2], env, "int")
+                x, xt, ok = self.E(e[2], env, "int")
                 if xt in ("int", "lit"):
-                    return x, "int"
+                    return x, "int", ok
             raise TErr(f"cast to `{' '.join(e[1][0])}{'*' * e[1][1]}` of this operand")
         if k == "un":
             op = e[1]
             if op == "!":
-                return f"!({self.cond(e[2], env)})", "bool"
+                c, ok = self.cond(e[2], env)
+                return f"!({c})", "bool", ok
             if op == "-":
                 v = const_int(e)
                 if v is not None and want in (None, "int"):
-                    return f"({v})", "int"
-                x, xt = self.E(e[2], env, want)
+                    return f"({v})", "int", None
+                x, xt, ok = self.E(e[2], env, want)
                 if xt == "int":
-                    return f"(-{x})", "int"
+                    return f"(-{x})", "int", conj(ok, f"intOk (-{x})")
                 raise TErr("unary minus on an unsigned operand")
             if op == "+":
                 return self.E(e[2], env, want)
@@ -518,108 +627,178 @@ class Emit:
         if k == "bin":
             return self.binop(e, env)
         if k == "cond":
-            c = self.cond(e[1], env)
-            ta, tya = self.E(e[2], env, want)
-            tb, tyb = self.E(e[3], env, want if tya == "lit" else tya)
+            c, okc = self.cond(e[1], env)
+            ta, tya, oka = self.E(e[2], env, want)
+            tb, tyb, okb = self.E(e[3], env, want if tya == "lit" else tya)
             if tya == "lit" and tyb != "lit":
-                ta, tya = self.E(e[2], env, tyb)
+                ta, tya, oka = self.E(e[2], env, tyb)
             if tya != tyb:
                 raise TErr("the two branches of `?:` are of different kinds")
-            return f"(if {c} then {ta} else {tb})", tya
+            ok = conj(okc, conj(guard(c, oka), guard(f"!({c})", okb)))
+            return f"(if {c} then {ta} else {tb})", tya, ok
         if k == "call":
             f = e[1]
-            if f in self.sigs and not isinstance(self.sigs[f], str):
-                s = self.sigs[f]
-                if s.mutates or s.outs:
-                    raise TErr(f"call of `{f}` (which modifies its arguments) inside an expression")
+            s = self.sigs.get(f)
+            if isinstance(s, Sig):
+                if s.mut or s.outs or s.mem:
+                    raise TErr(f"call of `{f}` (which modifies its arguments or allocates) inside an expression")
                 if s.ret == "void":
                     raise TErr(f"value of the void function `{f}`")
-                return "(" + self.call_text(s, e[2], env) + ")", s.ret
+                text, ok = self.call_text(s, e[2], env)
+                if s.faults:
+                    return f"({text}).1", s.ret, conj(ok, f"!({text}).2")
+                return f"({text})", s.ret, ok
             raise TErr(f"call of `{f}` is not translated")
         if k in ("assign", "pre", "post"):
             raise TErr("side effect inside an expression")
+        if k == "callp":
+            raise TErr("call through a function pointer inside an expression")
+        if k == "sizeof":
+            raise TErr("sizeof outside an allocator call")
         raise TErr(f"expression form `{k}`")
+
+    def index(self, ie, env, arr):
+        i, it, ok = self.E(ie, env, "nat")
+        if it == "int":
+            return f"(Int.toNat {i})", conj(ok, f"(decide (0 ≤ {i}) && decide (Int.toNat {i} < List.length {arr}))")
+        if it in ("nat", "lit"):
+            return i, conj(ok, f"decide ({i} < List.length {arr})")
+        raise TErr("array index is not an integer")
 
     def binop(self, e, env):
         op, a, b = e[1], e[2], e[3]
         if op in ("&&", "||"):
-            return f"({self.cond(a, env)} {op} {self.cond(b, env)})", "bool"
-        ta, tya = self.E(a, env)
-        tb, tyb = self.E(b, env, tya if tya != "lit" else None)
+            ca, oka = self.cond(a, env)
+            cb, okb = self.cond(b, env)
+            ok = conj(oka, guard(ca if op == "&&" else f"!({ca})", okb))
+            return f"({ca} {op} {cb})", "bool", ok
+        ta, tya, oka = self.E(a, env)
+        tb, tyb, okb = self.E(b, env, tya if tya != "lit" else None)
         if tya == "lit" and tyb != "lit":
-            ta, tya = self.E(a, env, tyb)
+            ta, tya, oka = self.E(a, env, tyb)
         if tya == "lit" and tyb == "lit":
             tya = tyb = "nat"
         if tyb == "lit":
             tyb = tya
+        # C's usual arithmetic conversions: int meets size_t -> the int is converted to size_t
+        if {tya, tyb} == {"nat", "int"}:
+            if tya == "int":
+                ta, tya = f"(castSizeT {ta})", "nat"
+            else:
+                tb, tyb = f"(castSizeT {tb})", "nat"
+        ok = conj(oka, okb)
         if op in gg.CMP:
-            if tya != tyb or tya not in ("nat", "int", "ptr", "bool", "stat"):
+            if tya != tyb or not (tya in ("nat", "int", "ptr", "bool", "stat") or (isinstance(tya, tuple) and tya[0] == "fn")):
                 raise TErr(f"comparison `{op}` of different kinds of operands")
-            if tya == "ptr" and op not in ("==", "!="):
-                raise TErr("ordering comparison of pointers")
-            return f"decide ({ta} {gg.CMP[op]} {tb})", "bool"
+            if tya not in ("nat", "int") and op not in ("==", "!="):
+                raise TErr("ordering comparison of pointers / truth values")
+            return f"decide ({ta} {gg.CMP[op]} {tb})", "bool", ok
         if tya == "nat" and tyb == "nat":
             fn = {"+": "wadd", "-": "wsub", "*": "wmul"}.get(op)
             if fn:
-                return f"({fn} {ta} {tb})", "nat"
+                return f"({fn} {ta} {tb})", "nat", ok
             if op in ("/", "%"):
-                return f"({ta} {op} {tb})", "nat"
+                return f"({ta} {op} {tb})", "nat", conj(ok, f"decide ({tb} ≠ 0)")
         if tya == "int" and tyb == "int" and op in ("+", "-", "*"):
-            return f"({ta} {op} {tb})", "int"
+            r = f"({ta} {op} {tb})"
+            return r, "int", conj(ok, f"intOk {r}")
         if tya == "ptr" and tyb == "nat" and op == "+":
-            return f"(padd {ta} {tb})", "ptr"
+            reg = self.memvar(env)
+            chk = f"paddOk {ta} {tb} (List.length {reg})" if reg else f"decide ({ta} ≠ none)"
+            return f"(padd {ta} {tb})", "ptr", conj(ok, chk)
         if tya == "ptr" and tyb == "ptr" and op == "-":
-            return f"(pdiff {ta} {tb})", "nat"
+            return f"(pdiff {ta} {tb})", "nat", conj(ok, f"pdiffOk {ta} {tb}")
         raise TErr(f"`{op}` on operands of kind {tya} and {tyb}")
 
+    def key(self, e):
+        return repr(e)
+
     def cond(self, e, env):
-        t, ty = self.E(e, env)
+        """-> (lean Bool text, ok)"""
+        if self.key(e) in self.nn:
+            return self.nn[self.key(e)], None
+        if e[0] == "id" and e[1] + "_nn" in env:
+            return lean_ident(e[1] + "_nn"), None
+        t, ty, ok = self.E(e, env)
         if ty == "bool":
-            return t
+            return t, ok
         if ty in ("nat", "lit", "int", "stat"):
-            return f"decide ({t} ≠ 0)"
-        if ty == "ptr":
-            return f"decide ({t} ≠ none)"
-        raise TErr("condition is not a truth value")
+            return f"decide ({t} ≠ 0)", ok
+        if ty == "ptr" or (isinstance(ty, tuple) and ty[0] == "fn"):
+            return f"decide ({t} ≠ none)", ok
+        raise TErr("truth value of this expression (a struct or array pointer whose NULL-ness is not tracked)")
 
     def coerce(self, e, env, ty):
-        t, got = self.E(e, env, ty)
+        t, got, ok = self.E(e, env, ty)
         if got == "lit" and ty in ("nat", "stat"):
             got = ty
+        if got == "nat" and ty == "stat" and e[0] == "id" and e[1] in self.consts:
+            got = "stat"
         if got == "lit" and ty == "bool":
-            return f"decide ({t} ≠ 0)"
+            return f"decide ({t} ≠ 0)", ok
         if got != ty:
-            raise TErr(f"a value of kind {got} where {ty} is expected")
-        return t
+            raise TErr(f"a value of kind {self.show(got)} where {self.show(ty)} is expected "
+                       f"(implicit conversions are not translated; write the cast)")
+        return t, ok
 
-    def call_text(self, s, args, env):
+    @staticmethod
+    def show(t):
+        return t if isinstance(t, str) else "/".join(str(x) for x in t)
+
+    def call_text(self, s, args, env, outs_to=None):
+        """-> (lean application text, ok of the arguments)"""
         if len(args) != len(s.params):
             raise TErr(f"`{s.name}` called with {len(args)} arguments")
-        out = [s.lean]
+        out, ok = [s.lean], None
         for (pn, pt), a in zip(s.params, args):
-            if pt == "self":
-                if a[0] != "id" or env.get(a[1]) != "self":
-                    raise TErr(f"`{s.name}` is not called on the container itself")
-                out.append(lean_ident(a[1]))
-            elif isinstance(pt, tuple):
-                continue        # out-parameters are results
+            if isinstance(pt, tuple) and pt[0] == "sp":
+                v = a[2] if a[0] == "un" and a[1] == "&" else a
+                if v[0] != "id" or v[1] not in env:
+                    raise TErr(f"argument `{pn}` of `{s.name}` is not a variable")
+                vt = env[v[1]]
+                good = (vt == pt and a[0] == "id") or (vt == ("sv", pt[1]) and a[0] == "un")
+                if not good:
+                    raise TErr(f"argument `{pn}` of `{s.name}` is not a {pt[1]}")
+                out.append(lean_ident(v[1]))
+            elif isinstance(pt, tuple) and pt[0] == "out":
+                if outs_to is None or a[0] != "id" or env.get(a[1]) != pt:
+                    raise TErr(f"out-argument `{pn}` of `{s.name}` is not the caller's own out-parameter")
+                outs_to[pn] = a[1]
             else:
-                out.append(self.atom(self.coerce(a, env, pt)))
-        return " ".join(out)
+                t, o = self.coerce(a, env, pt)
+                ok = conj(ok, o)
+                out.append(self.atom(t))
+        for n, ty in s.extras:
+            if (n, ty) not in self.extras:
+                self.extras.append((n, ty))
+            out.append(n)
+        if s.mem:
+            out.append(MEM)
+        return " ".join(out), ok
 
     @staticmethod
     def atom(t):
         return t if re.match(r"^[\w.]+$", t) or (t.startswith("(") and t.endswith(")")) else f"({t})"
 
     # -- statements --
+    def chk(self, ok):
+        if ok is None:
+            return []
+        self.fault_used = True
+        return [f"let {FAULT} := {FAULT} || !{self.atom(ok)}"] if self.sig.faults else []
+
     def result(self, retval, env):
         comps = []
         if self.sig.ret != "void":
             comps.append(retval)
         for n, _ in self.sig.outs:
             comps.append(lean_ident(n))
-        if self.sig.mutates:
-            comps.append(lean_ident(self.sig.state))
+        for n in self.sig.mut:
+            comps.append(lean_ident(n))
+        if self.sig.mem:
+            comps.append(MEM)
+        if self.sig.faults:
+            comps.append(FAULT)
         if not comps:
             return "()"
         return comps[0] if len(comps) == 1 else "(" + ", ".join(comps) + ")"
@@ -633,77 +812,127 @@ class Emit:
         return vs[0] if len(vs) == 1 else "(" + ", ".join(vs) + ")"
 
     def store(self, lhs, val_of, env):
-        """lines that perform `lhs = <value>`; val_of(type) gives the lean text of the value"""
+        """lines that perform `lhs = <value>`; val_of(type) gives (lean text, ok) of the value"""
         if lhs[0] == "id":
             if lhs[1] not in env:
                 raise TErr(f"assignment to unknown `{lhs[1]}`")
             t = env[lhs[1]]
-            if t == "self" or isinstance(t, tuple):
-                raise TErr(f"assignment to the pointer `{lhs[1]}` itself")
-            return [f"let {lean_ident(lhs[1])} := {val_of(t)}"]
+            if isinstance(t, tuple) or t in ("mem", "flag"):
+                raise TErr(f"assignment to the pointer / object `{lhs[1]}` itself")
+            v, ok = val_of(t)
+            return self.chk(ok) + [f"let {lean_ident(lhs[1])} := {v}"]
         if lhs[0] == "arrow":
-            b, bt = self.E(lhs[1], env)
-            if bt != "self" or lhs[1][0] != "id":
-                raise TErr("assignment to a field of something that is not the container")
-            if lhs[2] not in self.fields or self.fields[lhs[2]] == "arr":
+            if lhs[1][0] != "id":
+                raise TErr("assignment to a field of something that is not a variable")
+            b, bt, ok0 = self.E(lhs[1], env)
+            if not (isinstance(bt, tuple) and bt[0] in ("sp", "sv")):
+                raise TErr("assignment to a field of something that is not a translated struct")
+            fs = self.fields_of(bt)
+            if lhs[2] not in fs:
                 raise TErr(f"assignment to `{lhs[2]}`")
-            return [f"let {b} := {{ {b} with {lean_ident(lhs[2])} := {val_of(self.fields[lhs[2]])} }}"]
+            if lhs[1][1] + "_nn" in env:
+                ok0 = conj(ok0, lean_ident(lhs[1][1] + "_nn"))
+            v, ok = val_of(fs[lhs[2]])
+            return self.chk(conj(ok0, ok)) + [f"let {b} : {lean_ty(bt)} := {{ {b} with {lean_ident(lhs[2])} := {v} }}"]
         if lhs[0] == "index":
             a = lhs[1]
-            if a[0] != "arrow" or a[1][0] != "id" or env.get(a[1][1]) != "self" or self.fields.get(a[2]) != "arr":
-                raise TErr("array write to something that is not an array field of the container")
-            b = lean_ident(a[1][1])
-            i, it = self.E(lhs[2], env, "nat")
-            if it == "int":
-                i = f"(Int.toNat {i})"
-            elif it not in ("nat", "lit"):
-                raise TErr("array index is not an integer")
-            f = lean_ident(a[2])
-            return [f"let {b} := {{ {b} with {f} := Buf.put {b}.{f} {i} {self.atom(val_of('nat'))} }}"]
+            if a[0] != "arrow" or a[1][0] != "id":
+                raise TErr("array write to something that is not an array field of a variable")
+            arr, at, ok0 = self.E(a, env)
+            bt = env[a[1][1]]
+            if at != "arr":
+                raise TErr("array write to something that is not an array field")
+            b, f = lean_ident(a[1][1]), lean_ident(a[2])
+            i, ok1 = self.index(lhs[2], env, arr)
+            v, ok = val_of("nat")
+            return self.chk(conj(ok0, conj(ok1, ok))) + [f"let {b} : {lean_ty(bt)} := {{ {b} with {f} := Buf.put {b}.{f} {i} {self.atom(v)} }}"]
         if lhs[0] == "un" and lhs[1] == "*" and lhs[2][0] == "id":
             t = env.get(lhs[2][1])
             if isinstance(t, tuple) and t[0] == "out":
-                return [f"let {lean_ident(lhs[2][1])} := some {self.atom(val_of(t[1]))}"]
+                v, ok = val_of(t[1])
+                return self.chk(ok) + [f"let {lean_ident(lhs[2][1])} := some {self.atom(v)}"]
         raise TErr("assignment to something that is not a variable, a field, an array slot or `*out`")
 
-    def lhs_type(self, lhs, env):
-        if lhs[0] == "id":
-            return env.get(lhs[1])
-        if lhs[0] == "arrow":
-            return self.fields.get(lhs[2])
-        if lhs[0] == "index":
-            return "nat"
-        if lhs[0] == "un" and lhs[2][0] == "id":
-            t = env.get(lhs[2][1])
-            return t[1] if isinstance(t, tuple) else None
-        return None
-
-    def mutating_call(self, e):
-        return (e[0] == "call" and e[1] in self.sigs and not isinstance(self.sigs[e[1]], str)
-                and (self.sigs[e[1]].mutates or self.sigs[e[1]].outs))
+    def sibling_effect(self, e):
+        s = self.sigs.get(e[1]) if e[0] == "call" else None
+        return isinstance(s, Sig) and bool(s.mut or s.outs or s.mem)
 
     def do_call(self, e, env, bind):
-        """lines for a call of a sibling that modifies the container; bind = lvalue for the return value or None"""
+        """lines for a call of a sibling that modifies / allocates; bind = lvalue for the return value or None"""
         s = self.sigs[e[1]]
-        if s.outs:
-            raise TErr(f"call of `{e[1]}` with out-parameters")
-        comps = s.components(self.record)
+        outs_to = {}
+        text, ok = self.call_text(s, e[2], env, outs_to)
+        comps = s.components()
         r = self.fresh(env)
-        lines = [f"let {r} := {self.call_text(s, e[2], env)}"]
+        lines = self.chk(ok) + [f"let {r} := {text}"]
         n = len(comps)
+        argof = {pn: a for (pn, pt), a in zip(s.params, e[2])}
         for i, (kind, _) in enumerate(comps):
-            if kind == "ret" and bind is not None:
-                lines += self.store(bind, lambda ty, i=i: self.expect(s.ret, ty, proj(r, i, n)), env)
-            elif kind == "state":
-                st = [a for (pn, pt), a in zip(s.params, e[2]) if pt == "self"][0]
-                lines.append(f"let {lean_ident(st[1])} := {proj(r, i, n)}")
+            p = proj(r, i, n)
+            if kind == "ret":
+                if bind is not None:
+                    lines += self.store(bind, lambda ty, p=p: (self.expect(s.ret, ty, p), None), env)
+            elif kind.startswith("out:"):
+                lines.append(f"let {lean_ident(outs_to[kind[4:]])} := {p}")
+            elif kind.startswith("state:"):
+                a = argof[kind[6:]]
+                v = a[2] if a[0] == "un" else a
+                lines.append(f"let {lean_ident(v[1])} := {p}")
+            elif kind == "mem":
+                lines.append(f"let {MEM} := {p}")
+            elif kind == "fault":
+                self.fault_used = True
+                if self.sig.faults:
+                    lines.append(f"let {FAULT} := {FAULT} || {p}")
         return lines
 
-    @staticmethod
-    def expect(got, want, text):
+    def expect(self, got, want, text):
         if got != want:
-            raise TErr(f"a value of kind {got} where {want} is expected")
+            raise TErr(f"a value of kind {self.show(got)} where {self.show(want)} is expected")
         return text
+
+    # allocator calls through a function pointer field
+    def fnptr(self, e, env):
+        """e = callp: -> (role, lean Option Triple text, ok, args)"""
+        f, ft, ok = self.E(e[1], env)
+        if not (isinstance(ft, tuple) and ft[0] == "fn"):
+            raise TErr("call through something that is not an allocator function pointer")
+        return ft[1], f, conj(ok, f"decide ({f} ≠ none)"), e[2]
+
+    def alloc_lines(self, e, env):
+        """e = callp of an alloc/calloc pointer: -> (lines, success flag var, role, args)"""
+        role, f, ok, args = self.fnptr(e, env)
+        if role not in ("alloc", "calloc"):
+            raise TErr("value of a call to the release function")
+        a = self.fresh(env, "a")
+        lines = self.chk(ok) + [f"let {a} := Mem.allocT {MEM} ({f}.getD Triple.conf)", f"let {MEM} := {a}.2"]
+        return lines, f"{a}.1", role, args
+
+    def alloc_into(self, lhs, lty, e, env, declare=None):
+        """lines for `lhs = p->mem_calloc(..)` / a declaration initialised with it"""
+        lines, flag, role, args = self.alloc_lines(e, env)
+        if isinstance(lty, tuple) and lty[0] == "sp":
+            # a fresh object of a translated struct
+            tdn = [n for n, tg in self.cfg["tdefs"].items() if tg == lty[1]] + ["struct " + lty[1]]
+            if role != "calloc" or len(args) != 2 or const_int(args[0]) != 1 or args[1][0] != "sizeof" \
+                    or " ".join(args[1][1][0]) not in tdn or args[1][1][1] != 0:
+                raise TErr(f"an object of struct {lty[1]} must come from `mem_calloc(1, sizeof(<that struct>))`")
+            if declare is None:
+                raise TErr("re-assignment of an object pointer")
+            return lines + [f"let {lean_ident(declare)} : {lean_ty(lty)} := {zero_of(lty)}",
+                            f"let {lean_ident(declare)}_nn := {flag}"]
+        if lty == "arr":
+            if role != "calloc" or len(args) != 2 or args[1][0] != "sizeof" or args[1][1] != (("uint64_t",), 0):
+                raise TErr("an array must come from `mem_calloc(n, sizeof(uint64_t))`")
+            n, ok = self.coerce(args[0], env, "nat")
+            val = f"(if {flag} then Buf.mk {self.atom(n)} else [])"
+            if declare is not None:
+                return lines + self.chk(ok) + [f"let {lean_ident(declare)} : List Nat := {val}",
+                                               f"let {lean_ident(declare)}_nn := {flag}"]
+            out = lines + self.chk(ok) + self.store(lhs, lambda ty: (val, None), env)
+            self.nn[self.key(lhs)] = flag
+            return out
+        raise TErr("the result of an allocator call is stored in something that is neither an object nor an array")
 
     def effect(self, e, env):
         """lines for an expression statement"""
@@ -712,46 +941,73 @@ class Emit:
             op, lhs, rhs = e[1], e[2], e[3]
             if op != "=":
                 rhs = ("bin", op[0], lhs, rhs)
-            if self.mutating_call(rhs):
+            if self.sibling_effect(rhs):
                 return self.do_call(rhs, env, lhs)
+            if rhs[0] == "callp":
+                return self.alloc_into(lhs, self.ltype(lhs, env), rhs, env)
+            # array pointer copies carry their NULL-ness
+            if rhs[0] == "id" and rhs[1] + "_nn" in env and env.get(rhs[1]) == "arr":
+                self.nn[self.key(lhs)] = lean_ident(rhs[1] + "_nn")
             return self.store(lhs, lambda ty: self.coerce(rhs, env, ty), env)
         if k in ("pre", "post"):
             lhs = e[2]
             one = ("bin", "+" if e[1] == "++" else "-", lhs, ("num", 1))
             return self.store(lhs, lambda ty: self.coerce(one, env, ty), env)
+        if k == "callp":
+            role, f, ok, args = self.fnptr(e, env)
+            if role != "free":
+                raise TErr("result of an allocation is discarded")
+            if len(args) != 1:
+                raise TErr("release function called with other than 1 argument")
+            a = args[0]
+            at = env.get(a[1]) if a[0] == "id" else self.E(a, env)[1]
+            if not (at in ("arr", "ptr") or (isinstance(at, tuple) and at[0] == "sp")):
+                raise TErr("release of something that is not a block")
+            return self.chk(ok) + [f"let {MEM} := Mem.freeT {MEM} ({f}.getD Triple.conf)"]
         if k == "call":
             if e[1] == "memset":
-                mem = self.cfg["memory"]
-                if not mem or self.sig.state is None:
+                reg = self.memvar(env)
+                if not reg:
                     raise TErr("memset in a container without a byte region")
                 if len(e[2]) != 3:
                     raise TErr("memset with other than 3 arguments")
-                p = self.coerce(e[2][0], env, "ptr")
-                v = self.coerce(e[2][1], env, "nat")
-                n = self.coerce(e[2][2], env, "nat")
-                b = lean_ident(self.sig.state)
-                return [f"let {b} := {{ {b} with {mem} := memsetBytes {b}.{mem} {self.atom(p)} {self.atom(v)} {self.atom(n)} }}"]
-            if self.mutating_call(e):
+                p, ok1 = self.coerce(e[2][0], env, "ptr")
+                v, ok2 = self.coerce(e[2][1], env, "nat")
+                n, ok3 = self.coerce(e[2][2], env, "nat")
+                b = reg.split(".")[0]
+                ok = conj(conj(ok1, conj(ok2, ok3)), f"memsetOk {reg} {self.atom(p)} {self.atom(n)}")
+                return self.chk(ok) + [f"let {b} : {lean_ident(self.cfg['struct'])} := {{ {b} with {self.cfg['memory']} := memsetBytes {reg} {self.atom(p)} {self.atom(v)} {self.atom(n)} }}"]
+            if self.sibling_effect(e):
                 return self.do_call(e, env, None)
-            self.E(e, env)       # a pure call: type-check it, no effect
-            return []
-        self.E(e, env)
-        return []
+            _, _, ok = self.E(e, env)       # a pure call: type-check it, keep its checks
+            return self.chk(ok)
+        _, _, ok = self.E(e, env)
+        return self.chk(ok)
+
+    def ltype(self, lhs, env):
+        if lhs[0] == "id":
+            return env.get(lhs[1])
+        if lhs[0] == "arrow":
+            _, bt, _ = self.E(lhs[1], env)
+            if isinstance(bt, tuple) and bt[0] in ("sp", "sv"):
+                return self.fields_of(bt).get(lhs[2])
+        return None
 
     def assigned(self, s, env, acc):
-        """variables of env assigned somewhere in s (declaration order of env)"""
         def visit(x):
-            if x[0] == "assign":
-                acc.add(root_var(x[2]))
-            elif x[0] in ("pre", "post"):
+            if x[0] == "assign" or x[0] in ("pre", "post"):
                 acc.add(root_var(x[2]))
             elif x[0] == "call":
-                if x[1] == "memset" and self.sig.state:
-                    acc.add(self.sig.state)
-                elif self.mutating_call(x):
-                    for (pn, pt), a in zip(self.sigs[x[1]].params, x[2]):
-                        if pt == "self" and a[0] == "id":
-                            acc.add(a[1])
+                if x[1] == "memset":
+                    reg = self.memvar(env)
+                    if reg:
+                        acc.add(next(v for v in env if lean_ident(v) == reg.split(".")[0]))
+                elif self.sibling_effect(x):
+                    sg = self.sigs[x[1]]
+                    for (pn, pt), a in zip(sg.params, x[2]):
+                        v = a[2] if a[0] == "un" and a[1] == "&" else a
+                        if v[0] == "id" and (pn in sg.mut or (isinstance(pt, tuple) and pt[0] == "out")):
+                            acc.add(v[1])
         walk_exprs(s, visit)
         return acc
 
@@ -766,86 +1022,112 @@ class Emit:
             # flattened: a block-local declaration stays visible, shadowing an outer name is refused below
             return self.seq(list(s[1]) + rest, env, k, ind)
         if kind == "decl":
-            t = mk_type(s[1][0], s[1][1], self.cfg["typedefs"], f"declaration of {s[2]}")
-            if t in ("self", "void") or isinstance(t, tuple):
+            t = mk_type(s[1], self.cfg["tdefs"], f"declaration of {s[2]}", "local")
+            if t == "void" or (isinstance(t, tuple) and t[0] not in ("sp", "sv")):
                 raise TErr(f"local `{s[2]}` of this type")
-            if s[2] in env:
-                raise TErr(f"`{s[2]}` is declared twice")
+            if s[2] in env or s[2] + "_nn" in env or s[2] in (FAULT, MEM):
+                raise TErr(f"`{s[2]}` is declared twice (or clashes with a name the translation uses)")
             env = dict(env)
             env[s[2]] = t
-            if s[3] is None:
-                dflt = {"nat": "0", "int": "0", "bool": "false", "ptr": "none", "stat": "0"}[t]
-                lines = [f"let {lean_ident(s[2])} : {LEAN_TY[t]} := {dflt}"]
-            elif self.mutating_call(s[3]):
-                env0 = dict(env)
-                lines = [f"let {lean_ident(s[2])} : {LEAN_TY[t]} := {({'nat': '0', 'int': '0', 'bool': 'false', 'ptr': 'none', 'stat': '0'})[t]}"]
-                lines += self.do_call(s[3], env0, ("id", s[2]))
+            x, init = lean_ident(s[2]), s[3]
+            if isinstance(t, tuple) and t[0] == "sv":
+                if init is not None:
+                    raise TErr("struct value with an initialiser")
+                ex = (f"{self.sig.name}_{s[2]}_uninit", lean_ty(t))
+                self.extras.append(ex)
+                lines = [f"let {x} : {lean_ty(t)} := {ex[0]}"]
+            elif isinstance(t, tuple) and t[0] == "sp":
+                if init is not None and init[0] == "callp":
+                    lines = self.alloc_into(None, t, init, env, declare=s[2])
+                    env[s[2] + "_nn"] = "flag"
+                elif init is not None and init[0] == "cast" and mk_type(init[1], self.cfg["tdefs"], "cast", "param") == t:
+                    # placement: the object lives in caller-provided memory with arbitrary contents
+                    p, ok = self.coerce(init[2], env, "ptr")
+                    ex = (f"{self.sig.name}_{s[2]}_uninit", lean_ty(t))
+                    self.extras.append(ex)
+                    lines = self.chk(ok) + [f"let {x} : {lean_ty(t)} := {ex[0]}", f"let {x}_nn := decide ({p} ≠ none)"]
+                    env[s[2] + "_nn"] = "flag"
+                else:
+                    raise TErr(f"object pointer `{s[2]}` is not initialised by an allocation or a placement cast")
+            elif t == "arr":
+                if init is not None and init[0] == "callp":
+                    lines = self.alloc_into(None, t, init, env, declare=s[2])
+                    env[s[2] + "_nn"] = "flag"
+                else:
+                    raise TErr(f"array pointer `{s[2]}` is not initialised by an allocation")
+            elif init is None:
+                lines = [f"let {x} : {lean_ty(t)} := {zero_of(t)}"]
+            elif self.sibling_effect(init):
+                lines = [f"let {x} : {lean_ty(t)} := {zero_of(t)}"] + self.do_call(init, env, ("id", s[2]))
             else:
-                lines = [f"let {lean_ident(s[2])} : {LEAN_TY[t]} := {self.coerce(s[3], env, t)}"]
+                v, ok = self.coerce(init, env, t)
+                lines = self.chk(ok) + [f"let {x} : {lean_ty(t)} := {v}"]
             return [pad + l for l in lines] + self.seq(rest, env, k, ind)
         if kind == "expr":
             return [pad + l for l in self.effect(s[1], env)] + self.seq(rest, env, k, ind)
         if kind == "ret":
+            if k[0] != "fn":
+                raise TErr("internal: return inside a joined branch")
             if s[1] is None:
                 if self.sig.ret != "void":
                     raise TErr("`return;` in a non-void function")
                 return [pad + self.result(None, env)]
             if self.sig.ret == "void":
                 raise TErr("`return <value>;` in a void function")
-            if self.mutating_call(s[1]):
-                r = self.fresh(env)
+            if self.sibling_effect(s[1]):
+                r = self.fresh(env, "v")
                 env2 = dict(env)
                 env2[r] = self.sig.ret
-                pre = [f"let {r} : {LEAN_TY[self.sig.ret]} := {({'nat': '0', 'int': '0', 'bool': 'false', 'ptr': 'none', 'stat': '0'})[self.sig.ret]}"]
-                pre += self.do_call(s[1], env2, ("id", r))
+                pre = [f"let {r} : {lean_ty(self.sig.ret)} := {zero_of(self.sig.ret)}"] + self.do_call(s[1], env2, ("id", r))
                 return [pad + l for l in pre] + [pad + self.result(r, env2)]
-            if k[0] != "fn":
-                raise TErr("internal: return inside a joined branch")
-            return [pad + self.result(self.coerce(s[1], env, self.sig.ret), env)]
+            v, ok = self.coerce(s[1], env, self.sig.ret)
+            return [pad + l for l in self.chk(ok)] + [pad + self.result(v, env)]
         if kind == "if":
             c, s1, s2 = s[1], s[2], s[3]
             if c[0] == "assign":
                 return self.seq([("expr", c), ("if", c[2], s1, s2)] + rest, env, k, ind)
-            ctext = self.cond(c, env)
+            if c[0] == "un" and c[1] == "!" and c[2][0] == "assign":
+                return self.seq([("expr", c[2]), ("if", ("un", "!", c[2][2]), s1, s2)] + rest, env, k, ind)
+            ctext, cok = self.cond(c, env)
+            head = [pad + l for l in self.chk(cok)]
             if has_return(s1) or has_return(s2):
                 if k[0] != "fn":
                     raise TErr("internal: return inside a joined branch")
+                nn0 = dict(self.nn)
                 a = self.seq([s1] + rest, dict(env), k, ind + 1)
+                self.nn = dict(nn0)
                 b = self.seq(([s2] if s2 else []) + rest, dict(env), k, ind + 1)
-                return [pad + f"if {ctext} then"] + a + [pad + "else"] + b
+                self.nn = nn0
+                return head + [pad + f"if {ctext} then"] + a + [pad + "else"] + b
             acc = set()
             self.assigned(s1, env, acc)
             if s2:
                 self.assigned(s2, env, acc)
-            vs = [v for v in env if v in acc]
             unknown = sorted(acc - set(env) - self.local_decls(s1) - (self.local_decls(s2) if s2 else set()))
             if unknown:
                 raise TErr(f"assignment to unknown `{unknown[0]}`")
+            vs = [v for v in env if v in acc]
+            # the ledger and the fault flag are joined when a branch touches them
+            trial = self.seq([s1], dict(env), ("vars", ["_"]), 0) + (self.seq([s2], dict(env), ("vars", ["_"]), 0) if s2 else [])
+            for pseudo in (MEM, FAULT):
+                if pseudo in env and any(re.match(rf"\s*let {pseudo} :=", l) for l in trial):
+                    vs.append(pseudo)
             if not vs:
-                # nothing visible changes; still type-check the branches
-                self._check(s1, env)
-                if s2:
-                    self._check(s2, env)
-                return self.seq(rest, env, k, ind)
+                return head + self.seq(rest, env, k, ind)
             kk = ("vars", vs)
             a = self.seq([s1], dict(env), kk, ind + 2)
             b = self.seq([s2] if s2 else [], dict(env), kk, ind + 2)
+            jty = " × ".join(atomty(lean_ty(env[v])) for v in vs)
             if len(vs) == 1:
-                head = [pad + f"let {lean_ident(vs[0])} :="]
+                top = [pad + f"let {lean_ident(vs[0])} : {jty} :="]
                 tail = []
             else:
-                j = self.fresh(env)
-                head = [pad + f"let {j} :="]
+                j = self.fresh(env, "j")
+                top = [pad + f"let {j} : {jty} :="]
                 tail = [pad + f"let {lean_ident(v)} := {proj(j, i, len(vs))}" for i, v in enumerate(vs)]
-            return (head + [pad + "  " + f"if {ctext} then"] + a + [pad + "  else"] + b + tail
+            return (head + top + [pad + "  " + f"if {ctext} then"] + a + [pad + "  else"] + b + tail
                     + self.seq(rest, env, k, ind))
         raise TErr(f"statement form `{kind}`")
-
-    def _check(self, s, env):
-        # translate with a dummy continuation to surface unsupported syntax
-        try_env = dict(env)
-        try_env["__dummy"] = "nat"
-        self.seq([s], try_env, ("vars", ["__dummy"]), 0)
 
     @staticmethod
     def local_decls(s):
@@ -866,21 +1148,10 @@ class Emit:
         return out
 
 
-def const_int(e):
-    if e[0] == "num":
-        return e[1]
-    if e[0] == "un" and e[1] == "-":
-        v = const_int(e[2])
-        return None if v is None else -v
-    if e[0] == "un" and e[1] == "+":
-        return const_int(e[2])
-    return None
-
-
 # ---- per file --------------------------------------------------------------------------------------------
 
-def parse_struct(txt, tag, cfg):
-    """data fields of `struct tag { ... };` -> ordered {name: type}"""
+def parse_struct(txt, tag, cfg, tdefs, main):
+    """all fields of `struct tag { ... };` -> ordered {name: type}"""
     m = re.search(r"\bstruct\s+" + re.escape(tag) + r"\s*\{", txt)
     if not m:
         raise TErr(f"struct {tag} not found")
@@ -891,8 +1162,20 @@ def parse_struct(txt, tag, cfg):
         decl = " ".join(decl.split())
         if not decl:
             continue
+        fp = re.match(r"^(void\s*\*?)\s*\(\s*\*\s*(\w+)\s*\)\s*\((.*)\)$", decl)
+        if fp:
+            ret, name, ps = fp.group(1).replace(" ", ""), fp.group(2), [p for p in fp.group(3).split(",") if p.strip()]
+            if ret == "void*" and len(ps) == 1 and "size_t" in ps[0]:
+                fields[name] = ("fn", "alloc")
+            elif ret == "void*" and len(ps) == 2 and all("size_t" in p for p in ps):
+                fields[name] = ("fn", "calloc")
+            elif ret == "void" and len(ps) == 1 and "*" in ps[0]:
+                fields[name] = ("fn", "free")
+            else:
+                raise TErr(f"function pointer field `{name}` is not one of the allocator triple")
+            continue
         if "(" in decl:
-            continue            # function pointer (the allocator triple): not data
+            raise TErr(f"field declaration `{decl}`")
         mm = re.match(r"^((?:const\s+)?(?:enum\s+\w+|struct\s+\w+|\w+)(?:\s+\w+)*?)\s*((?:\**\s*\w+\s*,\s*)*\**\s*\w+)$", decl)
         if not mm:
             raise TErr(f"field declaration `{decl}`")
@@ -901,26 +1184,27 @@ def parse_struct(txt, tag, cfg):
             d = d.strip()
             stars = d.count("*")
             name = d.replace("*", "").strip()
-            if name in cfg["arrays"]:
-                if stars != 1 or not all(w in NAT_BASES for w in words):
-                    raise TErr(f"array field `{name}` is not a pointer to unsigned integers")
-                fields[name] = "arr"
-            else:
-                t = mk_type(words, stars, cfg["typedefs"], f"field {name}")
-                if t not in ("nat", "ptr", "int", "bool"):
-                    raise TErr(f"field `{name}` of this type")
-                fields[name] = t
-    for a in cfg["arrays"]:
-        if a not in fields:
-            raise TErr(f"array field `{a}` not found in struct {tag}")
-    if cfg["memory"]:
-        if cfg["memory"] in fields:
+            t = mk_type((words, stars), tdefs, f"field {name}", "field")
+            if main and name in cfg["arrays"]:
+                if t != "arr":
+                    raise TErr(f"array field `{name}` is not a `uint64_t *`")
+            elif t == "arr":
+                raise TErr(f"field `{name}`: a pointer to uint64_t that is not declared an array of the container")
+            elif t not in ("nat", "ptr", "int", "bool"):
+                raise TErr(f"field `{name}` of this type")
+            fields[name] = t
+    if main:
+        for a in cfg["arrays"]:
+            if a not in fields:
+                raise TErr(f"array field `{a}` not found in struct {tag}")
+        if cfg["memory"] and cfg["memory"] in fields:
             raise TErr(f"struct {tag} has a field called `{cfg['memory']}`")
     return fields
 
 
-def typedef_names(repo, tag):
-    names = set()
+def typedefs_of(repo, tags):
+    """{typedef name: tag} from src/include"""
+    out = {}
     inc = Path(repo, "src", "include")
     if inc.is_dir():
         for p in sorted(inc.rglob("*.h")):
@@ -928,8 +1212,10 @@ def typedef_names(repo, tag):
                 t = gg.strip_comments(p.read_text(errors="replace"))
             except OSError:
                 continue
-            names.update(re.findall(r"\btypedef\s+struct\s+" + re.escape(tag) + r"\s+(\w+)\s*;", t))
-    return names
+            for tag, name in re.findall(r"\btypedef\s+struct\s+(\w+)\s+(\w+)\s*;", t):
+                if tag in tags:
+                    out[name] = tag
+    return out
 
 
 def return_type_text(txt, fname):
@@ -959,49 +1245,80 @@ def split_type(text):
     return tuple(out), stars
 
 
-LEAN_FIELD_TY = {"nat": "Nat", "int": "Int", "bool": "Bool", "ptr": "Ptr", "arr": "List Nat"}
+def record_lines(tag, fields, cfg, main, f):
+    rec = lean_ident(tag)
+    ghost = cfg["memory"] if main and cfg["memory"] else None
+    lines = [f"/-- `struct {tag}` (`{f}`)" + (f"; `{ghost}` is the memory the byte pointers point into, indexed by address (ghost)" if ghost else "") + " -/",
+             f"structure {rec} where"]
+    for n, t in fields.items():
+        lines.append(f"  {lean_ident(n)} : {lean_ty(t)}")
+    if ghost:
+        lines.append(f"  {ghost} : List Nat")
+    inits = [f"{lean_ident(n)} := {zero_of(t)}" for n, t in fields.items()] + ([f"{ghost} := []"] if ghost else [])
+    lines.append(f"/-- a `struct {tag}` fresh from `calloc`: every field zero / NULL -/")
+    lines.append(f"def {rec}.zero : {rec} := {{ " + ", ".join(inits) + " }")
+    return lines
 
 
-def one_file(repo, cfg, status):
+def range_of(t, x):
+    if t == "nat":
+        return f"{x} < 2 ^ 64"
+    if t == "int":
+        return f"-2 ^ 31 ≤ {x} ∧ {x} < 2 ^ 31"
+    return None
+
+
+def one_file(repo, cfg, consts):
     """-> (lean lines, problems)"""
     lines, problems = [], []
     f, tag = cfg["file"], cfg["struct"]
-    record = lean_ident(tag)
-    fields = None
+    structs = None
     try:
         p = Path(repo, f)
         if not p.exists():
             raise TErr(f"{f} does not exist")
         txt = gg.strip_comments(p.read_text(errors="replace"))
-        cfg = dict(cfg, typedefs=typedef_names(repo, tag))
-        if not cfg["typedefs"]:
+        mac = re.search(r"^[ \t]*#[ \t]*(define|undef)\b.*$", txt, re.M)
+        if mac:
+            raise TErr(f"the file contains `{mac.group(0).strip()[:40]}`: macros inside a translated file are refused")
+        tags = [tag] + [t for t in re.findall(r"\bstruct\s+(\w+)\s*\{", txt) if t != tag]
+        tdefs = typedefs_of(repo, tags)
+        if tag not in tdefs.values():
             raise TErr(f"no `typedef struct {tag} X;` in src/include")
-        fields = parse_struct(txt, tag, cfg)
+        cfg = dict(cfg, tdefs=tdefs)
+        structs = {tag: dict(fields=parse_struct(txt, tag, cfg, tdefs, True))}
     except TErr as ex:
         problems.append(f"gen_funcs: struct {tag} ({f}): {ex}")
     except Exception as ex:
         problems.append(f"gen_funcs: struct {tag} ({f}): internal error {type(ex).__name__}: {ex}")
-    if fields is None:
+    if structs is None:
         lines.append(f"/-- NOT TRANSLATED — {problems[-1].replace('-/', '- /')} -/")
-        lines.append(f"structure {record} where\n  untranslated : Unit := ()")
+        lines.append(f"structure {lean_ident(tag)} where\n  untranslated : Unit := ()")
         for fn in cfg["funcs"]:
             problems.append(f"gen_funcs: {fn} ({f}): struct {tag} was not translated")
             lines += [f"/-- NOT TRANSLATED -/", f"def {fn} : Unit := ()"]
         return lines, problems
-    lines.append(f"/-- `struct {tag}` (`{f}`): the data fields" + (f"; `{cfg['memory']}` is the byte region the pointers point into (ghost)" if cfg["memory"] else "") + " -/")
-    lines.append(f"structure {record} where")
-    for n, t in fields.items():
-        lines.append(f"  {lean_ident(n)} : {LEAN_FIELD_TY[t]}")
-    if cfg["memory"]:
-        lines.append(f"  {cfg['memory']} : List Nat")
+    # the other structs of the file (configuration records) are translated when they can be
+    for t in tags[1:]:
+        if t in tdefs.values():
+            try:
+                structs[t] = dict(fields=parse_struct(txt, t, cfg, tdefs, False))
+            except TErr:
+                for n in [n for n, tg in tdefs.items() if tg == t]:
+                    del tdefs[n]
+    for t in list(tdefs):
+        if tdefs[t] not in structs:
+            del tdefs[t]
+    for t, d in structs.items():
+        lines += record_lines(t, d["fields"], cfg, t == tag, f)
+
     # pass 1: parse the table's functions and, transitively, the file-local helpers they call
     sigs, order = {}, []
 
     def parse_fn(fn):
         ptxt, body = gg.find_function(txt, fn)
-        rw, rs = split_type(return_type_text(txt, fn))
-        ret = mk_type(rw, rs, cfg["typedefs"], "return type")
-        if ret in ("self",) or isinstance(ret, tuple):
+        ret = mk_type(split_type(return_type_text(txt, fn)), tdefs, "return type", "ret")
+        if isinstance(ret, tuple) or ret == "arr":
             raise TErr("return type")
         params = []
         for part in gg.split_top(ptxt, ","):
@@ -1011,13 +1328,12 @@ def one_file(repo, cfg, status):
             mm = re.match(r"^(.*?)(\w+)$", part)
             if not mm or not mm.group(1).strip():
                 raise TErr(f"parameter `{part}`")
-            w, s_ = split_type(mm.group(1))
-            params.append((mm.group(2), mk_type(w, s_, cfg["typedefs"], f"parameter {mm.group(2)}")))
-        ps = Parser(tokenize(body), cfg["typedefs"])
+            params.append((mm.group(2), mk_type(split_type(mm.group(1)), tdefs, f"parameter {mm.group(2)}", "param")))
+        ps = Parser(tokenize(body), list(tdefs))
         items = ps.block_items()
         if ps.peek() is not None:
             raise TErr(f"unexpected `{ps.peek()}`")
-        return Sig(fn, ret, params, items, cfg)
+        return Sig(fn, ret, params, items)
 
     work = list(cfg["funcs"])
     while work:
@@ -1031,14 +1347,13 @@ def one_file(repo, cfg, status):
                 sg.lean = lean_ident(f"{tag}__{fn}")
             sigs[fn] = sg
             order.append(fn)
-            called = []
 
-            def visit(x, called=called):
+            def visit(x, sg=sg):
                 if x[0] == "call":
-                    called.append(x[1])
+                    sg.calls.add(x[1])
             for st in sg.body:
                 walk_exprs(st, visit)
-            for c in called:
+            for c in sorted(sg.calls):
                 if c not in sigs and c != "memset" and c not in work:
                     try:
                         gg.find_function(txt, c)     # defined in this file: a helper
@@ -1049,40 +1364,53 @@ def one_file(repo, cfg, status):
             sigs[fn] = str(ex)
         except Exception as ex:
             sigs[fn] = f"internal error {type(ex).__name__}: {ex}"
-    # pass 2: who modifies the container (fixpoint over sibling calls)
-    for fn in order:
-        s = sigs[fn]
 
-        def visit(x, s=s):
-            if x[0] == "call":
-                s.calls.add(x[1])
-        for st in s.body:
-            walk_exprs(st, visit)
-    changed = True
-    for fn in order:
-        s = sigs[fn]
-        direct = [False]
+    # pass 2: which struct parameters a function may modify / whether it allocates (fixpoint over calls)
+    def direct(s):
+        sp = [n for n, t in s.params if isinstance(t, tuple) and t[0] == "sp"]
+        mut, mem = set(), [False]
 
-        def visit(x, s=s, direct=direct):
+        def visit(x):
             if x[0] in ("assign", "pre", "post"):
                 try:
-                    if root_var(x[2]) == s.state:
-                        direct[0] = True
+                    r = root_var(x[2])
+                    if r in sp and x[2][0] != "id":
+                        mut.add(r)
                 except TErr:
                     pass
             if x[0] == "call" and x[1] == "memset":
-                direct[0] = True
+                for n, t in s.params:
+                    if t == ("sp", tag):
+                        mut.add(n)
+            if x[0] == "callp":
+                mem[0] = True
         for st in s.body:
             walk_exprs(st, visit)
-        s.mutates = direct[0] and s.state is not None
+        return mut, mem[0]
+    for fn in order:
+        s = sigs[fn]
+        mut, s.mem = direct(s)
+        s.mut = [n for n, _ in s.params if n in mut]
+    changed = True
     while changed:
         changed = False
         for fn in order:
             s = sigs[fn]
-            if not s.mutates and s.state is not None and any(
-                    c in sigs and not isinstance(sigs[c], str) and sigs[c].mutates for c in s.calls):
-                s.mutates = True
-                changed = True
+
+            def visit(x, s=s):
+                nonlocal changed
+                c = sigs.get(x[1]) if x[0] == "call" else None
+                if isinstance(c, Sig):
+                    if c.mem and not s.mem:
+                        s.mem = changed = True
+                    for (pn, pt), a in zip(c.params, x[2]):
+                        if pn in c.mut and a[0] == "id" and a[1] in dict(s.params) and a[1] not in s.mut \
+                                and isinstance(dict(s.params)[a[1]], tuple) and dict(s.params)[a[1]][0] == "sp":
+                            s.mut = [n for n, _ in s.params if n in s.mut or n == a[1]]
+                            changed = True
+            for st in s.body:
+                walk_exprs(st, visit)
+
     # pass 3: emit, callees first
     done, emitted = set(), []
 
@@ -1093,36 +1421,65 @@ def one_file(repo, cfg, status):
             sigs[fn] = "recursion"
             return
         s = sigs[fn]
-        if not isinstance(s, str):
+        if isinstance(s, Sig):
             for c in sorted(s.calls):
                 if c in sigs and c != fn:
                     emit(c, stack + [fn])
         done.add(fn)
         s = sigs[fn]
         text = None
-        if not isinstance(s, str):
+        if isinstance(s, Sig):
             try:
                 bad = [c for c in sorted(s.calls) if c in sigs and isinstance(sigs[c], str)]
                 if bad:
                     raise TErr(f"calls `{bad[0]}` which was not translated")
-                em = Emit(s, sigs, cfg, record, fields, status)
-                env = {}
-                for n, t in s.params:
-                    env[n] = t
-                pre = [f"  let {lean_ident(n)} : Option {LEAN_TY[t]} := none" for n, t in s.outs]
-                body = em.seq(list(s.body), env, ("fn",), 1)
-                comps = s.components(record)
-                rty = " × ".join(t for _, t in comps) if comps else "Unit"
-                args = "".join(f" ({lean_ident(n)} : {record if t == 'self' else LEAN_TY[t]})"
-                               for n, t in s.params if not isinstance(t, tuple))
-                what = ", ".join(("the return value" if k == "ret" else f"`*{k[4:]}`" if k.startswith("out:") else "the container")
-                                 for k, _ in comps) or "nothing"
+                body = None
+                for attempt in (True, False):
+                    s.faults = attempt
+                    em = Emit(s, sigs, cfg, structs, consts)
+                    env = {}
+                    for n, t in s.params:
+                        if n in (FAULT, MEM) or n.endswith("_nn"):
+                            raise TErr(f"parameter `{n}` clashes with a name the translation uses")
+                        env[n] = t
+                    if s.mem:
+                        env[MEM] = "mem"
+                    if s.faults:
+                        env[FAULT] = "flag"
+                    body = em.seq(list(s.body), env, ("fn",), 1)
+                    if em.fault_used == s.faults:
+                        break
+                s.extras = em.extras
+                pre = [f"  let {lean_ident(n)} : {lean_ty(('out', t))} := none" for n, t in s.outs]
+                if s.faults:
+                    pre.append(f"  let {FAULT} : Bool := false")
+                comps = s.components()
+                rty = " × ".join(atomty(t) if " " in t and "×" not in t and not t.startswith("Option") else t for _, t in comps) if comps else "Unit"
+                args = "".join(f" ({lean_ident(n)} : {lean_ty(t)})" for n, t in s.params if not (isinstance(t, tuple) and t[0] == "out"))
+                args += "".join(f" ({n} : {ty})" for n, ty in s.extras)
+                if s.mem:
+                    args += f" ({MEM} : Mem)"
+
+                def say(kd):
+                    if kd == "ret":
+                        return "the return value"
+                    if kd.startswith("out:"):
+                        return f"`*{kd[4:]}`"
+                    if kd.startswith("state:"):
+                        return f"`*{kd[6:]}`"
+                    return {"mem": "the ledger", "fault": "`fault` (undefined behaviour happened)"}[kd]
+                what = ", ".join(say(kd) for kd, _ in comps) or "nothing"
                 if s.helper:
-                    text = [f"/-- file-local helper `{fn}` (`{f}`); `simp` unfolds it, so the agreement proofs see through it -/",
+                    text = [f"/-- file-local helper `{fn}` (`{f}`); `simp` unfolds it, so the agreement proofs see through it; returns {what} -/",
                             f"@[simp] def {s.lean}{args} : {rty} :="] + pre + body
                 else:
                     text = [f"/-- `{fn}` (`{f}`), translated statement by statement; returns {what} -/",
                             f"def {fn}{args} : {rty} :="] + pre + body
+                    rng = [r for r in (range_of(t, lean_ident(n)) for n, t in s.params) if r]
+                    sc = "".join(f" ({lean_ident(n)} : {lean_ty(t)})" for n, t in s.params if t in ("nat", "int"))
+                    if rng:
+                        text += [f"/-- `{fn}`: the declared ranges of its scalar parameters -/",
+                                 f"def {fn}_range{sc} : Prop := " + " ∧ ".join(rng)]
             except TErr as ex:
                 sigs[fn] = str(ex)
             except Exception as ex:
@@ -1141,11 +1498,15 @@ def one_file(repo, cfg, status):
 
 HEADER = """-- GENERATED by tools/gen_funcs.py from the current /repo sources. Do not edit.
 import CollectionsC.Base.Buf
+import CollectionsC.Base.Mem
 /-! Whole functions of the two smallest containers, translated from the C text statement by statement
-(see tools/gen_funcs.py).  The state is a record with the data fields of the struct; a function takes the
-record where the C function takes the struct pointer and returns (return value, out-parameters as
-`Option`, the record if the function can modify it).  `Properties/C19Gen.lean` and `C12Gen.lean` prove
-that each definition agrees with the hand-written model. -/
+(see tools/gen_funcs.py for the rules, and for what is still ignored).  A struct is a record with all its
+fields; a function takes a record where the C function takes a struct pointer and returns (return value,
+out-parameters as `Option`, the struct parameters it may modify, the ledger `Mem` if it allocates,
+`fault`).  `fault` is true when the C execution would have had undefined behaviour (array index out of
+range, `/ 0`, `% 0`, `int` overflow, NULL / out-of-region pointer use, NULL function pointer).  Only 64-bit
+unsigned integers (`Nat`, wrapping at 2^64) and `int` are translated.  `Properties/C19Gen.lean` and
+`C12Gen.lean` prove that under the invariant each definition is fault-free and agrees with the model. -/
 set_option linter.unusedVariables false
 namespace CC.GenF
 /-- `a - b` on `size_t` (unsigned wrap-around; the convention of `Generated/Guards.lean`) -/
@@ -1154,33 +1515,55 @@ def wsub (a b : Nat) : Nat := if b ≤ a then a - b else 2^64 + a - b
 def wadd (a b : Nat) : Nat := (a + b) % 2^64
 /-- `a * b` on `size_t` -/
 def wmul (a b : Nat) : Nat := (a * b) % 2^64
-/-- `(size_t) i` for an `int` -/
+/-- `(size_t) i` for an `int` (also the implicit conversion when an `int` meets a `size_t`) -/
 def castSizeT (i : Int) : Nat := (i % 2^64).toNat
-/-- a byte pointer: `none` is NULL, `some k` points `k` bytes above the start of the region -/
+/-- the value is representable in `int` (otherwise the signed operation overflowed: undefined) -/
+def intOk (i : Int) : Bool := decide (-2^31 ≤ i ∧ i < 2^31)
+/-- a byte pointer: `none` is NULL, `some a` is the address `a` -/
 abbrev Ptr := Option Nat
 /-- `p + n` -/
 def padd : Ptr → Nat → Ptr
   | some a, n => some (a + n)
   | none, _ => none
+/-- `p + n` is defined: `p` is not NULL and the result is at most one past the end of the memory -/
+def paddOk : Ptr → Nat → Nat → Bool
+  | some a, n, len => decide (a + n ≤ len)
+  | none, _, _ => false
 /-- `p - q` as a `size_t` -/
 def pdiff : Ptr → Ptr → Nat
   | some a, some b => wsub a b
   | _, _ => 0
-/-- `memset(p, v, n)` on the byte region (positions outside the region are ignored) -/
+/-- `p - q` is defined: neither is NULL -/
+def pdiffOk (p q : Ptr) : Bool := p.isSome && q.isSome
+/-- `memset(p, v, n)` on the memory -/
 def memsetBytes (bytes : List Nat) (p : Ptr) (v n : Nat) : List Nat :=
   match p with
-  | some off => (List.range bytes.length).map fun j => if off ≤ j ∧ j < off + n then v else bytes.getD j 0
+  | some a => (List.range bytes.length).map fun j => if a ≤ j ∧ j < a + n then v else bytes.getD j 0
   | none => bytes
+/-- `memset(p, _, n)` is defined: `p` is not NULL and `[p, p+n)` lies inside the memory -/
+def memsetOk (bytes : List Nat) (p : Ptr) (n : Nat) : Bool :=
+  match p with
+  | some a => decide (a + n ≤ bytes.length)
+  | none => false
 """
+
+
+def all_constants(repo, constants_path):
+    vals = dict(gg.status_values(repo, constants_path))
+    p = Path(constants_path)
+    if p.exists():
+        for m in re.finditer(r"^def (\w+) : Nat := (\d+)$", p.read_text(), re.M):
+            vals[m.group(1)] = int(m.group(2))
+    return vals
 
 
 def generate(repo, constants_path=None):
     repo = str(repo)
-    status = gg.status_values(repo, constants_path or "/nonexistent")
+    consts = all_constants(repo, constants_path or "/nonexistent")
     lines, problems = [HEADER.rstrip("\n")], []
     for cfg in TABLE:
         try:
-            l, p = one_file(repo, cfg, status)
+            l, p = one_file(repo, cfg, consts)
         except Exception as ex:      # never crash the build step
             l = [f"def {fn} : Unit := ()" for fn in cfg["funcs"]]
             p = [f"gen_funcs: {cfg['file']}: internal error {type(ex).__name__}: {ex}"]
